@@ -7,6 +7,7 @@ import (
 	"os"
 	"path/filepath"
 	"runtime"
+	"runtime/debug"
 	"sort"
 	"strconv"
 	"strings"
@@ -163,7 +164,21 @@ func (c *Ctx) Section(name string, bounds map[string]interface{}, n int, fn func
 					atomic.StoreInt32(&cut, 1)
 					return
 				}
-				fn(i, w)
+				func() {
+					defer func() {
+						if r := recover(); r != nil {
+							st := string(debug.Stack())
+							if k := strings.Index(st, "panic("); k >= 0 {
+								st = st[k:]
+							}
+							if len(st) > 900 {
+								st = st[:900]
+							}
+							w.Fail("unexpected-panic", map[string]interface{}{"section_index": i}, fmt.Sprintf("library panicked while evaluating case #%d of %s: %v\n%s", i, name, r, st))
+						}
+					}()
+					fn(i, w)
+				}()
 			}
 		}()
 	}
